@@ -18,7 +18,12 @@ package main
 //   - nil-ness of pointers and slices is not represented: `p == nil` is false (public address-level
 //     information); a nil argument is the zero value.  Errors and interfaces are integers (0 = nil).
 //   - math/bits and crypto/subtle calls are operators of the IR (trusted constant time);
-//     math/big, io, fmt are external calls (table extTable): leaking ones expose every argument.
+//     math/big, io, fmt are external calls (table extTable): leaking ones expose every argument; each has
+//     an executable model (ExtKind / stdOracle in Model/CTIR.lean).  z.Bytes() is split into its length
+//     (ByteLen, an integer that must be declassified at a listed site before it can size anything) and
+//     FillBytes into a buffer of that length.  io.ReadFull carries the position of the reader, a public
+//     local variable of the calling function (0 at entry; such a function cannot be a callee), so that
+//     successive reads deliver successive candidates.
 //   - branch conditions listed in declassTable (the accept/reject verdicts named by the property)
 //     are wrapped in a declassify node; no other condition is.
 import (
